@@ -93,6 +93,7 @@ var atomFuncs = map[string]string{
 	"(" + modPath + "/analysis/sql.Table).TableName":        "IDENT",
 	"(go/constant.Value).ExactString":                       "CONST",
 	"strconv.Quote":                                         "QSTR",
+	"strconv.FormatFloat":                                   "CONST",
 	"(reflect.StructTag).Get":                               "USER",
 	"(go/constant.Value).String":                            "CONST",
 	modPath + "/generator.Origin":                           "COMMENT",
